@@ -32,8 +32,36 @@ from pyvc.sym import (
 )
 
 
-def lift(f, *args):
-    return fv_apply(f, *args)
+_LIFT_MEMO = {}
+
+
+def lift(f, *args, **kw):
+    """
+    leaf-wise application; with memo=<key> the value table computed on the first path of a unit
+    is reused on later paths (paths rebuild the same nodes in the same order)
+    """
+    key = kw.get("memo")
+    if key is None:
+        return fv_apply(f, *args)
+    from pyvc import fd
+
+    nodes = []
+    for a in args:
+        if isinstance(a, fd.Node) and a not in nodes:
+            nodes.append(a)
+    shape = tuple(len(n.values) for n in nodes)
+    hit = _LIFT_MEMO.get(key)
+    if hit is not None and hit[0] == shape and len(nodes) == hit[3]:
+        vals, table = hit[1], hit[2]
+        if table is None:
+            return vals
+        return fd.Node(list(vals), nodes, table)
+    r = fv_apply(f, *args)
+    if isinstance(r, fd.Node) and list(r.parents) == nodes:
+        _LIFT_MEMO[key] = (shape, list(r.values), r.table, len(nodes))
+    elif not isinstance(r, (fd.Node, SBool)):
+        _LIFT_MEMO[key] = (shape, r, None, len(nodes))
+    return r
 
 
 def fv_int_var(ctx, name, values):
@@ -405,8 +433,14 @@ def json_doc_obligations(ctx, result, spec_items, sort, interp_unbound):
         if isinstance(want, (SStr,)) or isinstance(got, SStr):
             goal = eq_z3(got, want) if not isinstance(got, FV) else z3.BoolVal(False)
         else:
+            if_defined = isinstance(want, tuple) and len(want) == 2 and want[0] == "if-defined"
+            if if_defined:
+                want = want[1]
+
             def same(a, b):
                 if a is UNBOUND:
+                    return True
+                if b is None and if_defined:
                     return True
                 if isinstance(b, Fraction):
                     import struct
